@@ -62,6 +62,7 @@ type cdObs struct {
 	Shape string                 `json:"shape"`
 	Reg   string                 `json:"reg"`
 	Out   string                 `json:"out"`
+	Stage string                 `json:"stage"` // when an error was reported: "load" (decoding the configuration) | "start" (first call of a factory)
 	Got   []string               `json:"got"`
 	Err   string                 `json:"err"` // free text, not compared
 }
@@ -354,6 +355,11 @@ func (e *cdEnv) adversarial(adv map[string]interface{}) string {
 
 // decodeVia runs one path through the real code and reads the decoded value back.
 func (e *cdEnv) decodeVia(via, shape, reg string, tree map[string]interface{}, leaves [][]string) (out string, got []string, errText string, points [][]string) {
+	out, got, errText, points, _ = e.decodeViaStage(via, shape, reg, tree, leaves)
+	return
+}
+
+func (e *cdEnv) decodeViaStage(via, shape, reg string, tree map[string]interface{}, leaves [][]string) (out string, got []string, errText string, points [][]string, stage string) {
 	if reg == "real" {
 		plugin.SetDefaultRegistry(e.realReg)
 	} else {
@@ -395,6 +401,7 @@ func (e *cdEnv) decodeVia(via, shape, reg string, tree map[string]interface{}, l
 		out = "ok"
 	}()
 	if out != "ok" {
+		stage = "load"
 		return
 	}
 	// read back (calls the gun / rps factories once: a schedule config is decoded when the factory is called)
@@ -411,6 +418,7 @@ func (e *cdEnv) decodeVia(via, shape, reg string, tree map[string]interface{}, l
 		out, errText = "error", oneLine(w.err.Error())
 	}
 	if out != "ok" {
+		stage = "start"
 		return
 	}
 	if reg == "rec" {
@@ -495,7 +503,7 @@ func confdecodeMain(args []string) {
 		}
 		set := entries(delta["set"])
 		kind := vt.Str(c["kind"])
-		phSet := vt.Bool(c["set"]) && (kind == "ph" || kind == "emb" || kind == "emblist")
+		phSet := vt.Bool(c["set"]) && (kind == "ph" || kind == "emb" || kind == "emblist" || kind == "phrange")
 		if kind == "pair" { // two mutations at once (ConfigDecodePairs.tla): TLC says whether the variable is set
 			phSet = vt.Bool(line["phset"])
 		}
@@ -508,11 +516,11 @@ func confdecodeMain(args []string) {
 		}
 		emit := func(via, shape, reg string) {
 			tree := build(base, set, del, e.props)
-			o, got, errText, _ := e.decodeVia(via, shape, reg, tree, v.leaves)
+			o, got, errText, _, stage := e.decodeViaStage(via, shape, reg, tree, v.leaves)
 			if got == nil {
 				got = []string{}
 			}
-			w.Emit(cdObs{C: c, Via: via, Shape: shape, Reg: reg, Out: o, Got: got, Err: errText})
+			w.Emit(cdObs{C: c, Via: via, Shape: shape, Reg: reg, Out: o, Stage: stage, Got: got, Err: errText})
 		}
 		emit("decode", "viper", "rec")
 		emit("decode", "yaml", "rec")
